@@ -68,3 +68,10 @@ Theorem C17_ranges_wellformed : forall Lbx Lby Ltx Lty ox oy sx sy, Lbx <= Ltx -
   range_mn2 Lbx Lby Ltx Lty ox oy sx sy <= range_mx2 Lbx Lby Ltx Lty ox oy sx sy /\ range_mn3 Lbx Lby Ltx Lty ox oy sx sy <= range_mx3 Lbx Lby Ltx Lty ox oy sx sy.
 Proof. exact ranges_wf. Qed.
 Print Assumptions C17_ranges_wellformed.
+
+(* The kerning path of the fixer (KernCollider, regenerated from src/Collider.cpp): for ANY needed kern, any offset carried over from earlier
+   collision passes and any well-formed limit rectangle, the kern KernCollider::resolve returns keeps the accumulated offset inside the
+   rectangle's x range. *)
+Theorem C17_kern_limit_respected : forall Lbx Ltx ox needed, Lbx <= Ltx -> Lbx <= ox + GenColl.kern_result Lbx Ltx ox needed <= Ltx.
+Proof. exact kern_limit_respected. Qed.
+Print Assumptions C17_kern_limit_respected.
